@@ -12,6 +12,8 @@ Lemma det_guard_service ne d a a' : det_guard ne d a Service = Some a' -> a' = 0
 Proof. unfold det_guard. destruct ne; cbn; congruence. Qed.
 Lemma det_guard_app ne d a a' : det_guard ne d a AppSend = Some a' -> a' = a.
 Proof. unfold det_guard. destruct ne; cbn; congruence. Qed.
+Lemma det_guard_reconn ne d a a' : det_guard ne d a Reconnect = Some a' -> a' = a.
+Proof. unfold det_guard. destruct ne; cbn; congruence. Qed.
 Lemma det_guard_rx ne d a p a' : det_guard ne d a (Rx p) = Some a' -> a' = a /\ (ne = true -> p <> InEof).
 Proof. unfold det_guard. destruct ne, p; cbn; intros H; inv H; split; congruence. Qed.
 
@@ -20,6 +22,9 @@ Lemma pobs_tick m t x : obs pmon_step t [Ticked x] m = m. Proof. reflexivity. Qe
 Lemma pobs_nil m t : obs pmon_step t [] m = m. Proof. reflexivity. Qed.
 Lemma pobs_txother m t : obs pmon_step t [TxOther] m = m. Proof. reflexivity. Qed.
 Lemma pobs_arr m t p : obs pmon_step t [Arr p] m = m. Proof. reflexivity. Qed.
+Lemma pobs_reconn m t (b : bool) :
+  obs pmon_step t ((if b then [Closed RC_RECONNECT] else []) ++ [TxConnect]) m = pmon0.
+Proof. destruct b; reflexivity. Qed.
 Lemma pobs_dead m t : obs pmon_step t [LoopRc RC_CONN_LOST] m =
   mkpmon (pm_out m) (pm_cb_ka m) (pm_cb_other m) (pm_closed m) true. Proof. reflexivity. Qed.
 Lemma pobs_eof m t : obs pmon_step t [Rd InEof; Closed RC_CONN_LOST; CbDisconnect RC_CONN_LOST] m =
@@ -59,7 +64,7 @@ Lemma det_inv ne K d t0 ops : 0 < K -> 0 <= d -> 0 < t0 ->
 Proof.
   intros HK Hd Ht0 Hg.
   pose proof (run_from_inv (det_guard ne d) pmon_step (I_det ne K d)) as H.
-  specialize (fun a b c d0 e f => H a b c d0 e f ops (init t0 K) [(t0, TxConnect)] pmon0 0).
+  specialize (fun a b c r d0 e f => H a b c r d0 e f ops (init t0 K) [(t0, TxConnect)] pmon0 0).
   unfold run, ping_monitor. apply H; try exact Hg; clear H Hg.
   - (* tick *)
     intros s m a dt a' (Hb & Ha & Hne & Hs & Hf) Hg.
@@ -80,6 +85,12 @@ Proof.
       intros Hn. specialize (Hne Hn). specialize (Hpe Hn). split; [|tauto].
       intros Hin'. apply in_app_or in Hin'. cbn [In] in Hin'. intuition congruence.
     + rewrite pobs_nil. unfold Idet. proj. tauto.
+  - (* reconnect *)
+    intros s m a a' (Hb & Ha & Hne & Hs & Hf) Hg. apply det_guard_reconn in Hg. subst a'.
+    split; [apply Ibase_reconn; exact Hb|]. rewrite pobs_reconn.
+    destruct Hb as (_ & Hn & _). destr_st s. cbn [step]. unfold Idet, pmon0. proj. pmproj.
+    split; [lia|]. split; [intros _; split; [intros []|reflexivity]|]. split; [|discriminate].
+    intros _. split; [reflexivity|congruence].
   - (* dead *)
     intros s m a a' (Hb & Ha & Hne & Hs & Hf) Hg Hsk. apply det_guard_service in Hg. subst a'.
     split; [exact Hb|]. rewrite pobs_dead. unfold Idet. pmproj.
